@@ -160,7 +160,7 @@ func (rp *replayer) replay(ref harnessRef, v *Violation, path string) string {
 		if nr.alloc > 32<<20 || nr.result == "out-of-memory" || strings.HasPrefix(nr.result, "panic:") || nr.timeout {
 			return "reproduced"
 		}
-	case v.Label == "hang":
+	case v.Label == "hang", v.Label == "deadlock":
 		if nr.timeout {
 			return "reproduced"
 		}
